@@ -6,6 +6,7 @@ import (
 	"go/token"
 	"go/types"
 	"math/big"
+	"os"
 	"sort"
 	"strings"
 
@@ -92,18 +93,27 @@ func runC08(cx *Ctx) {
 	r := cx.R
 	c := &c08{Ctx: cx, w: prove.NewWorld(cx.P)}
 	r.Explanation = "Static, structural. DECIDED — " +
-		"R1 (layout): the byte sequence returned by ntlm.CreateNegotiateMessage / CreateAuthenticateMessage, read off go/ssa (append chains, make+PutUintN, AppendUintN, fixed-offset writes into a constant-size header, bytes.Buffer), has at the MS-NLMP offsets: the 8-byte NTLM_SIGNATURE global (initialised once, never written, = \"NTLMSSP\\0\"), MessageType 4LE = NTLM_NEGOTIATE(1)/NTLM_AUTHENTICATE(3), the (Len 2LE, MaxLen 2LE, Offset 4LE) triples, NegotiateFlags 4LE, an 8-byte VERSION (version.Version.Marshal, itself checked against the VERSION layout in both directions) and for AUTHENTICATE a 16-byte MIC; the fixed part is exactly 40/88 bytes and the payload starts there. " +
-		"R2 (descriptor arithmetic, symbolic over len(payload) terms): for every descriptor Len and MaxLen are the length of one payload value P, Offset equals — as a linear form — the position at which P is appended (header + Σ lengths of the payloads appended before it), every appended payload is designated by exactly one descriptor and appended once, the response descriptors designate the matching results of calculateNTLMv?Response; and (E1) the uint16/uint32 narrowings of length and offset are guarded so they cannot truncate. In-bounds and pairwise non-overlap of all designated ranges follow for all inputs. " +
-		"R3 (character set): on the paths where the Unicode test is true every name payload is produced by utf16.EncodeUTF16LE of the right parameter (optionally upper-cased), on the other paths by a []byte(string) conversion and never by EncodeUTF16LE; NEGOTIATE sets exactly UNICODE resp. OEM on those paths; AUTHENTICATE tests NTLMSSP_NEGOTIATE_UNICODE on challenge.NegotiateFlags and echoes that same field. " +
-		"R4 (parsers): ParseChallengeMessage moves the MS-NLMP CHALLENGE fields (signature 0..8 compared with NTLM_SIGNATURE, type 8 = NTLM_CHALLENGE enforced, TargetNameFields 12, flags 20, server challenge 24..32, reserved 32..40, TargetInfoFields 40, version 48..56) little-endian into the struct it returns; each payload is data[Offset : Offset+Len] with both taken from that descriptor and the slice proved in bounds by E1 from the dominating guard (so the guard tested the very values sliced); ParseTargetInfo walks AvId 2LE, AvLen 2LE, value[AvLen], advances by 4+AvLen, stores the value under AvId and stops at MsvAvEOL. " +
-		"R5 (SPNEGO framing): encodeLength returns one byte for < 128 and otherwise ceil(bits/8) bytes most-significant first; CreateNegTokenInit/Resp emit 0x60, then the short form or 0x80|n followed by encodeLength's n bytes, of exactly the combined length of the two DER blobs that follow; ParseNegTokenResp/ExtractNTLMToken check 0x60 and skip 2+(b1&0x7F) bytes when b1&0x80 is set, else 2. " +
-		"IDIOMS: a builder rewritten into a shape outside the list in R1 (header filled in a loop, a make of non-constant size with copies at computed offsets, a helper with several returns, an octet count not obtained by a shift loop) is reported UNDECIDED, never passed. " +
+		"R1 (layout): the byte sequence returned by ntlm.CreateNegotiateMessage / CreateAuthenticateMessage, read off go/ssa (append chains, make+PutUintN, AppendUintN, fixed-offset writes into a constant-size header — also under a condition, which yields the bytes or the buffer's zeros —, one buffer made at the final computed size with copies at symbolic offsets that must tile it exactly, bytes.Buffer, up to two levels of in-module helpers, and counted loops over a local [][]byte literal, which are unrolled statically: trip count from the loop's own test, one activation per iteration), has at the MS-NLMP offsets: the 8-byte NTLM_SIGNATURE global (initialised once, never written, = \"NTLMSSP\\0\"), MessageType 4LE = NTLM_NEGOTIATE(1)/NTLM_AUTHENTICATE(3), the (Len 2LE, MaxLen 2LE, Offset 4LE) triples, NegotiateFlags 4LE, an 8-byte VERSION (version.Version.Marshal, itself checked against the VERSION layout in both directions) and for AUTHENTICATE a 16-byte MIC; the fixed part is exactly 40/88 bytes and the payload starts there. " +
+		"R2 (descriptor arithmetic, symbolic over len(payload) terms): for every descriptor Len and MaxLen are the length of one payload value P, Offset equals — as a linear form — the position at which P is appended (header + Σ lengths of the payloads appended before it), every appended payload is designated by exactly one descriptor and appended once, the response descriptors designate the matching results of calculateNTLMv?Response; and (E1) the uint16/uint32 narrowings of length and offset are guarded so they cannot truncate (for a conversion inside a helper or a loop iteration the quantity converted by that activation is bounded at the outermost call site). In-bounds and pairwise non-overlap of all designated ranges follow for all inputs. " +
+		"R3 (character set): on the paths where the Unicode test is true every name payload is produced by utf16.EncodeUTF16LE of the right parameter (optionally upper-cased), on the other paths by a []byte(string) conversion and never by EncodeUTF16LE — directly or in a shared encoding helper whose own branches on the test are followed; NEGOTIATE sets exactly UNICODE resp. OEM on those paths (also when the flags are assembled by a helper); AUTHENTICATE tests NTLMSSP_NEGOTIATE_UNICODE on challenge.NegotiateFlags and echoes that same field. " +
+		"R4 (parsers): ParseChallengeMessage moves the MS-NLMP CHALLENGE fields (signature 0..8 compared with NTLM_SIGNATURE by bytes.Equal / bytes.HasPrefix / string comparison, type 8 = NTLM_CHALLENGE enforced, TargetNameFields 12, flags 20, server challenge 24..32, reserved 32..40, TargetInfoFields 40, version 48..56) little-endian into the struct it returns; each payload is data[Offset : Offset+Len] with both taken from that descriptor — inline or in a payload helper (up to two levels, integer accessors included, nested windows composed), read at its call site — and the slice proved in bounds by E1 from the dominating guard (so the guard tested the very values sliced); ParseTargetInfo walks AvId 2LE, AvLen 2LE, value[AvLen], advances by 4+AvLen (an integer offset or a re-sliced tail), stores the value under AvId and stops at MsvAvEOL. " +
+		"R5 (SPNEGO framing): encodeLength returns one byte for < 128 and otherwise ceil(bits/8) bytes most-significant first (octet count by a shift loop, (bits.Len+7)/8 or a ladder of range tests proved by E1; octets by a fill loop or the tail of an 8-byte big-endian image); CreateNegTokenInit/Resp — directly or through a shared framing helper — emit 0x60, then the short form or 0x80|n followed by encodeLength's n bytes (alternatively the marker iff >= 128 followed on both paths by encodeLength, or a length helper returning those alternatives), of exactly the combined length of the two DER blobs that follow; ParseNegTokenResp/ExtractNTLMToken — directly or through a header helper whose error is checked — check 0x60 and skip 2+(b1&0x7F) bytes when b1&0x80 is set, else 2. " +
+		"IDIOMS: a builder rewritten into a shape outside those lists (a loop whose trip count is not a constant of its own test or that is left from its body, writes that overlap or do not tile a buffer, a helper with several returns of different widths, an octet count of another form) is reported UNDECIDED, never passed. " +
 		"NOT DECIDED — the DER produced/consumed by encoding/asn1 (so the SPNEGO round trip for all token lengths, including the empty token, is not established), that a parsed CHALLENGE equals what a peer sent beyond the byte-lane map above, the numeric content of the responses (C02) and of EncodeUTF16LE (C01), the OEM code page, and receivers' treatment of zero-length fields."
 	r.Assumptions = append(r.Assumptions,
 		"go/ssa of x/tools v0.50.0 and go/types are trusted; encoding/binary PutUintN/UintN/AppendUintN write/read N/8 bytes in the stated order; append(s, t...) yields s followed by t; bytes.Buffer.Write* append",
 		"the total length of the slices live in one call is below 2^62 (int arithmetic on lengths does not wrap)",
 		"specification tables (MS-NLMP 2.2.1.1-3, 2.2.2.1, 2.2.2.10; X.690 8.1.3) transcribed by hand")
 
+	if want := os.Getenv("C08_DUMP"); want != "" { // debugging aid: SSA of the named functions
+		for _, fn := range c.w.Funcs {
+			for _, n := range strings.Split(want, ",") {
+				if fn.Name() == n {
+					fn.WriteTo(os.Stderr)
+				}
+			}
+		}
+	}
 	sigGlobal := c.signatureGlobal()
 	c.versionLayout()
 	neg := c.builder(c08Negotiate, sigGlobal)
@@ -247,6 +257,14 @@ func c08ReadOnlyUses(v ssa.Value) string {
 				return "is written through"
 			}
 		case *ssa.Lookup, *ssa.Index:
+		case *ssa.Convert:
+			if !c08IsString(x.Type()) {
+				return "is converted to " + x.Type().String()
+			}
+		case *ssa.Slice:
+			if why := c08ReadOnlyUses(x); why != "" {
+				return why
+			}
 		default:
 			return fmt.Sprintf("is used by %T", r)
 		}
@@ -440,7 +458,8 @@ func (c *c08) builder1(spec c08Msg, sig *ssa.Global, fn *ssa.Function, name stri
 	if p := intAt("R1.message-type", "MessageType", 8, 4); p != nil && p.Why == "" {
 		construct := name + ": MessageType"
 		want, okc := c08PkgConst(c.P, c08NTLM, spec.typeConst)
-		got, isK := c08ConstInt(p.Val)
+		pv, _ := codec.Resolve(c08Strip(p.Val), p.Frame) // a shared header helper takes the type as a parameter
+		got, isK := c08ConstInt(pv)
 		switch {
 		case !okc:
 			r.Undecided("R1.message-type", construct, c.ipos(p.At), "constant "+spec.typeConst+" not found")
@@ -537,7 +556,11 @@ func (c *c08) builder1(spec c08Msg, sig *ssa.Global, fn *ssa.Function, name stri
 			continue
 		}
 		if pfr != nil {
-			r.Undecided("R2.desc-len", construct, c.ipos(lenP.At), "the payload whose length is written is a value local to helper "+pfr.Callee.Name())
+			where := "one iteration of a loop"
+			if pfr.Callee != nil {
+				where = "helper " + pfr.Callee.Name()
+			}
+			r.Undecided("R2.desc-len", construct, c.ipos(lenP.At), "the payload whose length is written is a value local to "+where)
 			continue
 		}
 		PM, _, _, _ := c08LenArg(maxP.Val, maxP.Frame)
@@ -769,7 +792,31 @@ func (c *c08) narrowing(name, desc string, fn *ssa.Function, z *codec.Sym, piece
 		}
 		ctx := c.w.Info(at.Parent()).CtxBefore(at)
 		sf := ctx.Lin(src)
-		if !(ctx.Prove(lin.LE(sf, lin.KB(max))) && ctx.Prove(lin.GE0(sf))) {
+		proved := ctx.Prove(lin.LE(sf, lin.KB(max))) && ctx.Prove(lin.GE0(sf))
+		if !proved && fr != nil {
+			// The converted value lives in an inlined helper and/or in one iteration
+			// of an unrolled loop, where E1 (which sees the helper alone, and the
+			// loop body once for all iterations) knows nothing about it. Prove the
+			// bound of the quantity this activation converts, at the outermost call
+			// site: a form over values of the analysed function that are defined
+			// before that point and outside the loop, so that the guards dominating
+			// it are facts about them.
+			var topAt ssa.Instruction = conv
+			for f := fr; f != nil; f = f.Parent {
+				if f.Iter == nil {
+					topAt = f.Call
+				}
+			}
+			ctx2 := c.w.Info(topAt.Parent()).CtxBefore(topAt)
+			if tf, ok := c08IterForm(z, ctx2, conv.X, fr, topAt); ok {
+				if ctx2.Prove(lin.LE(tf, lin.KB(max))) && ctx2.Prove(lin.GE0(tf)) {
+					proved = true
+				} else {
+					ctx, sf = ctx2, tf
+				}
+			}
+		}
+		if !proved {
 			q := z.String(z.OfIn(conv.X, fr))
 			c.R.Add("R2.desc-narrow", construct, c.ipos(conv), report.Finding, fmt.Sprintf("%s.%s = uint%d(%s) is not guarded: a value above %s is silently truncated, so the descriptor no longer designates the bytes of its field (needs %s <= %s on every path to the conversion)", desc, what, bits, q, max, q, max),
 				map[string]any{"facts": ctx.FactStrings(lin.LE(sf, lin.KB(max)), 12)})
@@ -777,6 +824,88 @@ func (c *c08) narrowing(name, desc string, fn *ssa.Function, z *codec.Sym, piece
 		}
 	}
 	c.R.OK("R2.desc-narrow", construct, c.pos(fn.Pos()), "uint16(len) and uint32(offset) proved in range by E1")
+}
+
+// c08IterForm: the value of src in iteration activation fr as an E1 form at
+// `at`: src is evaluated symbolically (φs and table loads resolved per
+// iteration) and every term of the result must be a value that is defined
+// outside every unrolled loop and dominates `at`, so that E1's facts about it
+// hold there. The evaluation looks through no narrowing conversion.
+func c08IterForm(z *codec.Sym, ctx *prove.Ctx, src ssa.Value, fr *codec.Frame, at ssa.Instruction) (lin.Form, bool) {
+	if c08HasNarrowing(src, fr, 0) {
+		return lin.Form{}, false
+	}
+	f := z.OfIn(src, fr)
+	out := lin.KB(f.C)
+	for _, t := range f.Terms() {
+		v, isLen := z.TermValue(t)
+		switch x := v.(type) {
+		case *ssa.Parameter:
+			if x.Parent() != at.Parent() {
+				return lin.Form{}, false
+			}
+		case ssa.Instruction:
+			if x.Parent() != at.Parent() || !c08Before(x, at) || codec.InLoopOf(x.Block(), fr) {
+				return lin.Form{}, false
+			}
+		default:
+			return lin.Form{}, false
+		}
+		tf := ctx.Lin(v)
+		if isLen {
+			tf = ctx.LenOf(v)
+		}
+		out = out.Add(tf.Scale(f.Coef[t]))
+	}
+	return out, true
+}
+
+func c08Before(a, b ssa.Instruction) bool {
+	if a.Block() == b.Block() {
+		for _, in := range a.Block().Instrs {
+			if in == a {
+				return true
+			}
+			if in == b {
+				return false
+			}
+		}
+		return false
+	}
+	return a.Block().Dominates(b.Block())
+}
+
+// c08HasNarrowing: the integer expression v (followed through φs of unrolled
+// loops, parameters and + −) contains a conversion to a narrower or
+// differently-signed integer type.
+func c08HasNarrowing(v ssa.Value, fr *codec.Frame, d int) bool {
+	if d > 256 {
+		return true
+	}
+	switch x := v.(type) {
+	case *ssa.Convert:
+		sb, ok1 := x.X.Type().Underlying().(*types.Basic)
+		db, ok2 := x.Type().Underlying().(*types.Basic)
+		if !ok1 || !ok2 || sb.Info()&types.IsInteger == 0 || db.Info()&types.IsInteger == 0 {
+			return true
+		}
+		if c08Bits(db) < c08Bits(sb) || (sb.Info()&types.IsUnsigned == 0) != (db.Info()&types.IsUnsigned == 0) && c08Bits(db) <= c08Bits(sb) {
+			return true
+		}
+		return c08HasNarrowing(x.X, fr, d+1)
+	case *ssa.ChangeType:
+		return c08HasNarrowing(x.X, fr, d+1)
+	case *ssa.BinOp:
+		if x.Op == token.ADD || x.Op == token.SUB {
+			return c08HasNarrowing(x.X, fr, d+1) || c08HasNarrowing(x.Y, fr, d+1)
+		}
+		return false
+	case *ssa.Phi, *ssa.Parameter:
+		if e, ef := codec.Resolve(v, fr); e != v {
+			return c08HasNarrowing(e, ef, d+1)
+		}
+	}
+	return false
 }
 
 // versionPiece: the 8 bytes at the Version offset come from version.Version.Marshal
